@@ -17,6 +17,9 @@
 (*                   m1 m2   moveTo, Len()=moveTo + test      (notify arm; back to sel when still short)               *)
 (*                   c1 c2   moveTo, Len()=moveTo + test      (close arm)      c3  getStreamState() -> EOS / closed    *)
 (*                on return the deferred Stop+drain leaves the timer channel empty.                                    *)
+(*                Configuration flag cb (callback mode): the reader is the callback goroutine started by the first      *)
+(*                message (g1 moveTo, g2 IsOpen, g3 Len) whose OnData does ReadBytes(Need); Close while it is active   *)
+(*                is only deferred (CloseCb); the teardown lambda is not modelled; the behaviour ends with the read.   *)
 (*                Environment = everything that can release the reader:                                                *)
 (*                   ArrBegin/ArrAdd/ArrNotify  fillDataToReadBuffer in the event loop: entered, pendingData.add, then  *)
 (*                                      (state test) asyncNotify - the reader can run between any two of them          *)
@@ -76,7 +79,7 @@ svars == <<spc, sres, mine, ahead, behind, lp, cur, wblk, ssess, stm, kpc>>
 ivars == <<ipc, ik, ipeer, ires, igo>>
 vars == <<cvars, now, rvars, fvars, avars, svars, ivars>>
 
-NoRC == [id |-> 0, dl |-> <<0>>, chunks |-> {1}, maxarr |-> 0, events |-> {}, maxt |-> 0, inittok |-> {0}]
+NoRC == [id |-> 0, dl |-> <<0>>, chunks |-> {1}, maxarr |-> 0, events |-> {}, maxt |-> 0, inittok |-> {0}, cb |-> FALSE]
 NoFC == [id |-> 0, qcap |-> 1, preload |-> 0, wdl |-> 0, maxt |-> 0]
 Deadlines == rc.dl
 Chunks == rc.chunks
@@ -115,7 +118,7 @@ NotI == mode = "init" /\ UNCHANGED <<cvars, rvars, fvars, avars, svars>>
 \* =============================== Mode "read" ===============================
 Dl == IF rd = 0 THEN 0 ELSE Deadlines[rd]          \* deadline of the current read
 
-\* the reader returns r. Ghosts: bad = a result the property forbids; lead = EOS although enough bytes had arrived
+\* the reader returns r. Ghosts: bad = a result the property forbids; lead = EOS after the peer's close although enough bytes had arrived
 Return(r, nrbuf, npend) ==
   /\ rpc' = "idle" /\ res' = r /\ tmr' = "off" /\ tdl' = 0
   /\ pend' = npend
@@ -125,18 +128,29 @@ Return(r, nrbuf, npend) ==
             ELSE IF r = "timeout" /\ (Dl = 0 \/ now < Dl) THEN "timeout-before-deadline"
             ELSE IF r \in {"eos", "closed"} /\ ~cls /\ st = "open" THEN "error-without-a-cause"
             ELSE ""
-  /\ lead' = (lead \/ (r = "eos" /\ nrbuf + npend >= Need))
+  /\ lead' = (lead \/ (r = "eos" /\ peerClosed /\ nrbuf + npend >= Need))
 
 Arm == IF Dl # 0 THEN tmr' = "armed" /\ tdl' = Dl ELSE UNCHANGED <<tmr, tdl>>
 Keep == UNCHANGED <<now, rd, tok, cls, st, sess, dpc, dsz, arr, peerClosed, cpc>> /\ NotR
 
 RStart ==      \* ReadBytes(Need) is called; it enters readMore only when the buffer is short
-  /\ rpc = "idle" /\ rd < Len(Deadlines) /\ rd' = rd + 1
+  /\ ~rc.cb /\ rpc = "idle" /\ rd < Len(Deadlines) /\ rd' = rd + 1
   /\ IF rbuf >= Need
        THEN /\ rbuf' = rbuf - Need /\ res' = "nil" /\ UNCHANGED <<rpc>>
        ELSE /\ rpc' = "a1" /\ res' = "none" /\ UNCHANGED <<rbuf>>
   /\ UNCHANGED <<now, pend, tok, cls, st, sess, tmr, tdl, dpc, dsz, arr, peerClosed, cpc, bad, lead>> /\ NotR
 
+\* callback goroutine before OnData: moveTo | for s.IsOpen() && | s.recvBuf.Len() > 0 { OnData -> ReadBytes(Need) }
+R_g1 == /\ rpc = "g1" /\ rbuf' = rbuf + pend /\ pend' = 0 /\ rpc' = "g2"
+        /\ UNCHANGED <<res, tmr, tdl, bad, lead>> /\ Keep
+R_g2 == /\ rpc = "g2" /\ rpc' = (IF st = "open" THEN "g3" ELSE "idle")       \* not open: OnData is not called at all
+        /\ UNCHANGED <<res, pend, rbuf, tmr, tdl, bad, lead>> /\ Keep
+R_g3 == /\ rpc = "g3"
+        /\ LET n == rbuf + pend IN
+           IF n >= Need THEN Return("nil", n, 0)                                \* ReadBytes finds enough: no readMore
+           ELSE /\ rbuf' = n /\ pend' = 0 /\ rpc' = (IF n = 0 THEN "idle" ELSE "a1")
+                /\ UNCHANGED <<res, tmr, tdl, bad, lead>>
+        /\ Keep
 R_a1 == /\ rpc = "a1" /\ rbuf' = rbuf + pend /\ pend' = 0 /\ rpc' = "a2"
         /\ UNCHANGED <<res, tmr, tdl, bad, lead>> /\ Keep
 R_a2 == /\ rpc = "a2"
@@ -183,7 +197,7 @@ R_c2 == /\ rpc = "c2"
         /\ Keep
 R_c3 == /\ rpc = "c3" /\ Return(IF st = "half" THEN "eos" ELSE "closed", rbuf, pend) /\ Keep
 
-ReaderStep == R_a1 \/ R_a2 \/ R_b \/ R_bm1 \/ R_bm2 \/ R_b2 \/ R_enter \/ R_selTok \/ R_selCls \/ R_selTmr \/ R_m1 \/ R_m2 \/ R_c1 \/ R_c2 \/ R_c3
+ReaderStep == R_g1 \/ R_g2 \/ R_g3 \/ R_a1 \/ R_a2 \/ R_b \/ R_bm1 \/ R_bm2 \/ R_b2 \/ R_enter \/ R_selTok \/ R_selCls \/ R_selTmr \/ R_m1 \/ R_m2 \/ R_c1 \/ R_c2 \/ R_c3
 
 RKeep == UNCHANGED <<rpc, rd, res, bad, lead>> /\ NotR
 ArrBegin(k) ==      \* the event loop enters fillDataToReadBuffer with a k-byte message (nothing shared touched yet)
@@ -197,23 +211,32 @@ ArrNotify ==        \* state test, then asyncNotify(recvNotifyCh) (or drop every
   /\ dpc = "mid" /\ dpc' = "idle" /\ dsz' = 0
   /\ IF st = "closed" THEN pend' = 0 /\ rbuf' = 0 /\ UNCHANGED tok
                       ELSE tok' = 1 /\ UNCHANGED <<pend, rbuf>>
-  /\ UNCHANGED <<now, cls, st, sess, tmr, tdl, arr, peerClosed, cpc>> /\ RKeep
+  \* callback mode: CAS(callbackInProcess, 0, 1) wins for the first message -> the callback goroutine is started (it will
+  \* call OnData, whose ReadBytes(Need) is the read under test; one read per behaviour)
+  /\ IF rc.cb /\ st # "closed" /\ rpc = "idle" /\ rd = 0 THEN rpc' = "g1" /\ rd' = 1 ELSE UNCHANGED <<rpc, rd>>
+  /\ UNCHANGED <<now, cls, st, sess, tmr, tdl, arr, peerClosed, cpc, res, bad, lead>> /\ NotR
 HalfClose ==
   /\ "half" \in Events /\ ~peerClosed /\ dpc = "idle" /\ sess = "up" /\ peerClosed' = TRUE
   /\ IF st = "open" THEN st' = "half" /\ cls' = TRUE ELSE UNCHANGED <<st, cls>>
   /\ UNCHANGED <<now, pend, rbuf, tok, sess, tmr, tdl, dpc, dsz, arr, cpc>> /\ RKeep
 CloseCAS ==
-  /\ "close" \in Events /\ cpc = "idle" /\ st # "closed" /\ st' = "closed" /\ cpc' = "mid"
+  /\ ~rc.cb /\ "close" \in Events /\ cpc = "idle" /\ st # "closed" /\ st' = "closed" /\ cpc' = "mid"
   /\ UNCHANGED <<now, pend, rbuf, tok, cls, sess, tmr, tdl, dpc, dsz, arr, peerClosed>> /\ RKeep
 CloseFin ==
   /\ cpc = "mid" /\ cpc' = "done" /\ pend' = 0 /\ rbuf' = 0 /\ cls' = TRUE
   /\ UNCHANGED <<now, tok, st, sess, tmr, tdl, dpc, dsz, arr, peerClosed>> /\ RKeep
+CloseCb ==          \* callback mode, Stream.Close by another goroutine while the callback goroutine is active
+                    \* (callbackInProcess = 1): the close is deferred - callbackCloseState := waitExit, CAS open -> half,
+                    \* return. closeNotifyCh is NOT closed; the real close happens when the callback goroutine leaves.
+  /\ rc.cb /\ "close" \in Events /\ cpc = "idle" /\ rpc # "idle" /\ st # "closed" /\ cpc' = "done"
+  /\ st' = (IF st = "open" THEN "half" ELSE st)
+  /\ UNCHANGED <<now, pend, rbuf, tok, cls, sess, tmr, tdl, dpc, dsz, arr, peerClosed>> /\ RKeep
 SessNotify ==
   /\ "sess" \in Events /\ sess = "up" /\ sess' = "notified"
   /\ cls' = (IF st = "closed" THEN cls ELSE TRUE)       \* a stream that already left the table is not notified
   /\ UNCHANGED <<now, pend, rbuf, tok, st, tmr, tdl, dpc, dsz, arr, peerClosed, cpc>> /\ RKeep
 SessLambda ==
-  /\ sess = "notified" /\ dpc = "idle" /\ sess' = "down"
+  /\ ~rc.cb /\ sess = "notified" /\ dpc = "idle" /\ sess' = "down"
   /\ IF st # "closed" THEN st' = "closed" /\ pend' = 0 /\ rbuf' = 0 ELSE UNCHANGED <<st, pend, rbuf>>
   /\ UNCHANGED <<now, tok, cls, tmr, tdl, dpc, dsz, arr, peerClosed, cpc>> /\ RKeep
 TimerFire ==
@@ -221,8 +244,8 @@ TimerFire ==
   /\ UNCHANGED <<now, pend, rbuf, tok, cls, st, sess, tdl, dpc, dsz, arr, peerClosed, cpc>> /\ RKeep
 RTick == Tick /\ UNCHANGED <<pend, rbuf, tok, cls, st, sess, tmr, tdl, dpc, dsz, arr, peerClosed, cpc>> /\ RKeep
 
-ReadNext == RStart \/ R_a1 \/ R_a2 \/ R_b \/ R_bm1 \/ R_bm2 \/ R_b2 \/ R_enter \/ R_selTok \/ R_selCls \/ R_selTmr \/ R_m1 \/ R_m2 \/ R_c1 \/ R_c2
-            \/ R_c3 \/ (\E k \in AllChunks : ArrBegin(k)) \/ ArrAdd \/ ArrNotify \/ HalfClose \/ CloseCAS \/ CloseFin \/ SessNotify
+ReadNext == RStart \/ R_g1 \/ R_g2 \/ R_g3 \/ R_a1 \/ R_a2 \/ R_b \/ R_bm1 \/ R_bm2 \/ R_b2 \/ R_enter \/ R_selTok \/ R_selCls \/ R_selTmr \/ R_m1 \/ R_m2 \/ R_c1 \/ R_c2
+            \/ R_c3 \/ (\E k \in AllChunks : ArrBegin(k)) \/ ArrAdd \/ ArrNotify \/ HalfClose \/ CloseCAS \/ CloseFin \/ CloseCb \/ SessNotify
             \/ SessLambda \/ TimerFire \/ RTick
 
 \* the event that should release the reader has happened (and its deliverer has finished)
@@ -231,6 +254,10 @@ Released == \/ cls
             \/ (dpc = "idle" /\ pend + rbuf >= Need)
 ReadFair == WF_vars(ReaderStep) /\ WF_vars(ArrAdd) /\ WF_vars(ArrNotify) /\ WF_vars(CloseFin) /\ WF_vars(TimerFire)
 ReadReturns == (rpc # "idle" /\ Released) ~> (rpc = "idle")
+\* what the property asks for: a close by EITHER end releases the reader. In callback mode a local Close is only deferred
+\* (CloseCb) and gives no notification: TLC refutes this formula for cb configurations (lead of finding
+\* callback-close-leaves-reader-blocked); it is checked in a separate run and the counterexample is staged on the real code.
+ReadReturnsAnyClose == (rpc # "idle" /\ (Released \/ (cpc = "done" /\ st # "open"))) ~> (rpc = "idle")
 NoBadResult == bad = ""
 NoEosWithData == ~lead           \* not a C11 verdict (the read did return); holds since commit 45496fc, see the notes
 ReadTypeOK == /\ tok \in {0, 1} /\ pend >= 0 /\ rbuf >= 0
